@@ -73,7 +73,8 @@ impl Fdt {
 
     fn get_fdt_instance(&self, now: SystemTime) -> FdtInstance {
         let ntp = tools::system_time_to_ntp(now).unwrap_or(0);
-        let expires_ntp = (ntp >> 32) + self.duration.as_secs();
+        // saturating: `fdt_duration` close to `Duration::MAX` overflowed the u64 addition
+        let expires_ntp = (ntp >> 32).saturating_add(self.duration.as_secs());
 
         let oti_attributes = match self.oti.fec_encoding_id {
             // Raptor / RaptorQ scheme parameters are object dependent
